@@ -255,9 +255,10 @@ void rother(char const* desc)
 
 // ---------------------------------------------------------------- C09: narrowing conversions under a rounding mode
 // scaled -> scaled.  Route 0: cnl::convert<DestTag, Dest, SrcTag>;  Route 1: static_cast between scaled_integer<rounding_integer<Rep,Tag>, power<E>>
-template<class M, class SR, int SE, class DR, int DE, int Route>
+template<class M, class SR, int SE, class DR, int DE, int Route, int Radix = 2>
 void rconv(char const* desc)
 {
+    auto shl = [](X const& v, int k) { return v * c01::xipow(Radix, k); };  // units of the finer exponent
     if (!kernel_selected(desc)) return;
     using Tag = typename M::tag;
     Tally t(desc);
@@ -272,10 +273,11 @@ void rconv(char const* desc)
             for (int i = 0; i < 300; ++i) {
                 X k = X::of(rand_val<SR>(rng));
                 k = shr_mag(k, (unsigned)std::min(s + (int)(i % 3), 200));
-                X base = shl(k, s) + shl(X::from_u(1), s - 1);
+                X const halfunit = tdiv(shl(X::from_u(1), s), X::from_u(2));  // (radix 10: 5*10^(s-1); odd radixes have no exact tie)
+                X base = shl(k, s) + halfunit;
                 for (int d = -1; d <= 1; ++d) {
                     X a = base + X::from_i(d);
-                    if (k.neg) a = shl(k, s) - shl(X::from_u(1), s - 1) + X::from_i(d);
+                    if (k.neg) a = shl(k, s) - halfunit + X::from_i(d);
                     if (a >= RT<SR>::lo() && a <= RT<SR>::hi()) as.push_back(a);
                 }
             }
@@ -290,14 +292,14 @@ void rconv(char const* desc)
         X got;
         Outcome o = guarded([&] {
             if constexpr (Route == 0) {
-                using S = cnl::scaled_integer<SR, cnl::power<SE>>;
-                using D = cnl::scaled_integer<DR, cnl::power<DE>>;
+                using S = cnl::scaled_integer<SR, cnl::power<SE, Radix>>;
+                using D = cnl::scaled_integer<DR, cnl::power<DE, Radix>>;
                 S s = deep<S>(rs);
                 auto d = cnl::convert<Tag, D>{}(s);
                 got = deepval(d);
             } else {
-                using S = cnl::scaled_integer<cnl::rounding_integer<SR, Tag>, cnl::power<SE>>;
-                using D = cnl::scaled_integer<cnl::rounding_integer<DR, Tag>, cnl::power<DE>>;
+                using S = cnl::scaled_integer<cnl::rounding_integer<SR, Tag>, cnl::power<SE, Radix>>;
+                using D = cnl::scaled_integer<cnl::rounding_integer<DR, Tag>, cnl::power<DE, Radix>>;
                 S s = deep<S>(rs);
                 D d = static_cast<D>(s);
                 got = deepval(d);
@@ -311,7 +313,7 @@ void rconv(char const* desc)
         bool nt = i < na ? (tie || rs == RT<SR>::lo() || rs == RT<SR>::hi() || rs.mag128() <= 3 || !r.zero()) : false;
         if (tie) t.classes[rs.neg ? "tie_negative" : "tie_positive"]++;
         if (r.zero()) t.classes["lossless"]++;
-        auto in = [&] { return rs.str() + "*2^" + std::to_string(SE) + " -> *2^" + std::to_string(DE) + " [" + modename(M::id) + "]"; };
+        auto in = [&] { return rs.str() + "*" + std::to_string(Radix) + "^" + std::to_string(SE) + " -> *" + std::to_string(Radix) + "^" + std::to_string(DE) + " [" + modename(M::id) + "]"; };
         if (o.kind == VALUE && got == want) {
             t.held(o, nt);
             t.sample(nt && tie, in, [&] { return want.str(); }, [&] { return got.str(); });
@@ -324,8 +326,9 @@ void rconv(char const* desc)
                 char const* how = (o.kind == VALUE) ? ":wrong_value" : (o.kind == UB_TRAP || o.kind == SIG) ? ":trap" : nullptr;
                 if (how) {
                     if (s > 0) {
-                        bool unit_unrep = Route == 0 ? s >= (int)cnl::digits_v<SR> : s >= (int)cnl::digits_v<PS>;
-                        X half = s >= 1 && s < 200 ? xpow2((unsigned)(s - 1)) : X();
+                        X const unit = s < 100 ? shl(X::from_u(1), s) : xpow2(255);   // Radix^s in units of the source
+                        bool unit_unrep = Route == 0 ? unit > xmax<SR>() : unit > xmax<PS>();
+                        X half = tdiv(unit, X::from_u(2));
                         X biased = M::id == 1 ? (rs.neg ? rs - half : rs + half) : M::id == 2 ? rs + half : rs;
                         bool bias_over = Route == 0 && (M::id == 1 || M::id == 2) && !fits<PS>(biased);
                         // defect models: signed promoted rep => the overflow is UB (trap); unsigned => the biased sum wraps
@@ -336,7 +339,7 @@ void rconv(char const* desc)
                             return r;
                         };
                         bool model_ok = o.kind != VALUE ? is_sgn<PS>
-                                                        : (!is_sgn<PS> && got == wrapw(shr_mag(wrapw(biased, width_of<PS>, false), (unsigned)s), width_of<DR>, is_sgn<DR>));
+                                                        : (!is_sgn<PS> && got == wrapw(tdiv(wrapw(biased, width_of<PS>, false), unit), width_of<DR>, is_sgn<DR>));
                         if (unit_unrep) cls = std::string("dest_unit_not_representable_in_source_rep") + how;
                         else if (bias_over && model_ok) cls = std::string("rounding_bias_overflows_source_rep") + how;
                     } else if (s < 0 && s > -200) {
@@ -351,7 +354,7 @@ void rconv(char const* desc)
                         if (!fits<PS>(inter) && model_ok) cls = std::string("widening_intermediate_overflows_source_rep") + how;
                     }
                 }
-            } else if constexpr (Route == 0 && DE > SE) {
+            } else if constexpr (Route == 0 && DE > SE && Radix == 2) {
                 // elastic source rep: same defect, the destination unit 2^s needs more digits than the source's elastic rep has
                 char const* how = (o.kind == VALUE) ? ":wrong_value" : (o.kind == UB_TRAP || o.kind == SIG) ? ":trap" : nullptr;
                 if (how && DE - SE >= (int)cnl::digits_v<SR>) cls = std::string("dest_unit_not_representable_in_source_rep") + how;
@@ -364,17 +367,17 @@ void rconv(char const* desc)
 
 // floating -> integer / scaled_integer under a rounding tag.  Logged and judged offline (exact rationals).
 //   line:  C <kid> <hexfloat> <rep|KIND>
-template<class M, class F, class DR, int DE, int Route>
+template<class M, class F, class DR, int DE, int Route, int Radix = 2>
 void rfloat(char const* desc, int kid)
 {
     if (!kernel_selected(desc)) return;
     using Tag = typename M::tag;
     Rng rng(mix(env_seed(), hash_str(desc)));
     g.cur_kernel = desc;
-    printf("{\"t\":\"kd\",\"id\":%d,\"k\":\"%s\",\"mode\":%d,\"exp\":%d,\"lo\":\"%s\",\"hi\":\"%s\",\"mant\":%d}\n", kid, desc, M::id, DE, RT<DR>::lo().str().c_str(), RT<DR>::hi().str().c_str(),
-           std::numeric_limits<F>::digits);
+    printf("{\"t\":\"kd\",\"id\":%d,\"k\":\"%s\",\"mode\":%d,\"exp\":%d,\"lo\":\"%s\",\"hi\":\"%s\",\"mant\":%d,\"radix\":%d}\n", kid, desc, M::id, DE, RT<DR>::lo().str().c_str(), RT<DR>::hi().str().c_str(),
+           std::numeric_limits<F>::digits, Radix);
     std::vector<F> vs;
-    long double unit = ldexpl(1.0L, DE);
+    long double unit = Radix == 2 ? ldexpl(1.0L, DE) : powl((long double)Radix, (long double)DE);
     auto around = [&](long double c) {
         F f = (F)c;
         if (!std::isfinite(f)) return;
@@ -405,11 +408,11 @@ void rfloat(char const* desc, int kid)
         Outcome o = guarded([&] {
             if constexpr (Route == 0) {
                 if constexpr (DE == 0) got = X::of(cnl::convert<Tag, DR>{}(f));
-                else got = deepval(cnl::convert<Tag, cnl::scaled_integer<DR, cnl::power<DE>>>{}(f));
+                else got = deepval(cnl::convert<Tag, cnl::scaled_integer<DR, cnl::power<DE, Radix>>>{}(f));
             } else {
                 // construct a rounding_integer / scaled_integer<rounding_integer> from the floating value
                 if constexpr (DE == 0) got = deepval(cnl::rounding_integer<DR, Tag>{f});
-                else got = deepval(cnl::scaled_integer<cnl::rounding_integer<DR, Tag>, cnl::power<DE>>{f});
+                else got = deepval(cnl::scaled_integer<cnl::rounding_integer<DR, Tag>, cnl::power<DE, Radix>>{f});
             }
         });
         if (o.kind == VALUE) printf("C %d %La %s\n", kid, (long double)f, got.str().c_str());
